@@ -447,6 +447,13 @@ func (rc *runCtx) runChunk(ph fw.Phase, lo, hi int, prefix string) int {
 		// all cases reported but exit status non-zero: treat as death after the last case
 		cur.Case = hi - 1
 	}
+	if ee, ok := werr.(*exec.ExitError); ok && ee.ExitCode() == 77 && !timedOut {
+		// the worker ended itself after reporting the case in flight
+		rc.a.mu.Lock()
+		rc.a.tags["worker-bailed-after-case"]++
+		rc.a.mu.Unlock()
+		return cur.Case + 1
+	}
 	if timedOut {
 		rc.a.mu.Lock()
 		rc.a.tags["inconclusive:watchdog"]++
